@@ -79,6 +79,13 @@ def must_fail(phrase, setting, enabled=None):
         return "unknown-tag"
     if yes_unsupported(setting):
         return "unsupported-parameter"
+    for t in (b"$5$rounds=", b"$6$rounds="):
+        if setting.startswith(t):
+            # crypt(5): 1000 .. 999,999,999; a larger number (which a 32-bit truncation could fold back into range)
+            # is malformed
+            f = setting[len(t):].split(b"$", 1)[0]
+            if f.isdigit() and int(f) > 999999999:
+                return "cost-above-maximum"
     if setting.startswith(b"$sha1$"):
         # crypt(5): the sha1crypt cost is a decimal number of at most 4,294,967,295.  A negative one is malformed
         # (strtoul would read it as 2^64 - n), and so is one above the documented maximum.
